@@ -22,7 +22,7 @@ func jobC07(c *rt.Ctx) {
 		{ref.Ctx, "a"}, {ref.Ctx, "b"}, {ref.Ctx, "a\x00"}, {ref.Ctx, "aa"}, {ref.Ctx, a254}, {ref.Ctx, a255}, {ref.Ctx, a255f},
 		{ref.Ph, ""}, {ref.Ph, "a"}, {ref.Ph, "b"}, {ref.Ph, a255},
 	}
-	modes := []string{"single", "batch4", "batch65"}
+	modes := []string{"single", "batch4", "batch65", "batch4-homogeneous", "batch68-tail-homogeneous"}
 	nk := 2
 	for si := range pairs {
 		for vi := range pairs {
@@ -58,6 +58,33 @@ func jobC07(c *rt.Ctx) {
 						switch mode {
 						case "single":
 							got, pv = implSingleOpts(t, vv, false)
+						case "batch4-homogeneous", "batch68-tail-homogeneous":
+							// every entry of the (last) chunk is signed under sv: nothing valid under vv forces a fallback
+							n, lo := 4, 0
+							if mode != "batch4-homogeneous" {
+								n, lo = 68, 64
+							}
+							entries := append([]triple{}, fillers(vv, n)...)
+							for i := lo; i < n; i++ {
+								if mi == 1 {
+									entries[i] = honestTriple(50+ki+i, msg, sv)
+								} else {
+									entries[i] = modelTriple(50+ki+(i-lo), msg, sv)
+								}
+							}
+							var valid []bool
+							var err error
+							_, valid, err, pv = implBatch(entries, vv, false, rt.NewRng(c.Seed, "c07h"))
+							if err != nil || len(valid) != n {
+								pv = fmt.Sprintf("err=%v len=%d", err, len(valid))
+							} else {
+								got = valid[lo]
+								for i, v := range valid {
+									if (i >= lo && v != exp) || (i < lo && !v) {
+										pv = fmt.Sprintf("entry %d reported %v", i, v)
+									}
+								}
+							}
 						default:
 							n, pos := 4, 2
 							if mode == "batch65" {
